@@ -19,6 +19,17 @@ type srvOutcome struct {
 	trouble   string // harness trouble ("" if none)
 }
 
+// deep reports whether the expensive enumerations of the thorough tier run:
+// the additional -race build of that tier repeats the quick-scale enumeration.
+func deep() bool { return ev.Thorough() && os.Getenv("VF_RACE") == "" }
+
+func scale(quick, thorough int) int {
+	if deep() {
+		return thorough
+	}
+	return quick
+}
+
 func mixSeed(x uint64) uint64 {
 	x ^= x >> 33
 	x *= 0xff51afd7ed558ccd
